@@ -649,7 +649,7 @@ InitToks(p) == CASE p = "lexis" -> <<ST("a", <<>>)>>
                  [] OTHER -> <<>>
 SmallBounds == [structure |-> 3, prolog |-> 3, lexis |-> 3, attrs |-> 2, nsscope |-> 3, entities |-> 4, values |-> 3]
 QuickBounds == [structure |-> 5, prolog |-> 4, lexis |-> 3, attrs |-> 2, nsscope |-> 4, entities |-> 5, values |-> 4]
-ThoroughBounds == [structure |-> 6, prolog |-> 5, lexis |-> 3, attrs |-> 3, nsscope |-> 5, entities |-> 6, values |-> 5]
+ThoroughBounds == [structure |-> 6, prolog |-> 4, lexis |-> 3, attrs |-> 2, nsscope |-> 5, entities |-> 6, values |-> 4]
 
 \* ------------------------------------------------------------------------------------------------------------
 \* behaviours: extend the document token by token; stop at the first fatal error (prefix closed) or at EOF
